@@ -51,13 +51,13 @@ type count struct {
 }
 
 type ctxSpec struct {
-	typeName string // e.g. PacketDefinitionContext
-	rule     *gRule
-	alt      *gAlt          // non-nil for labelled alternatives
-	counts   map[string]count // element name (rule or token) -> count
-	labels   map[string]string // label -> element name
-	labelTok map[string]bool
-	nullable bool
+	typeName  string // e.g. PacketDefinitionContext
+	rule      *gRule
+	alt       *gAlt             // non-nil for labelled alternatives
+	counts    map[string]count  // element name (rule or token) -> count
+	labels    map[string]string // label -> element name
+	labelTok  map[string]bool
+	nullable  bool
 	altGroups [][]string // for alternations: per alternative, the mandatory element names
 	sumGroups [][]string // mandatory groups of single-element alternatives: the counts of these elements sum to >= 1 each
 }
@@ -66,9 +66,9 @@ type TreeSpec struct {
 	rules    map[string]*gRule
 	order    []string
 	ctxs     map[string]*ctxSpec // by context type name
-	tokMin   map[string]int       // lexer token -> minimal text length
-	tokLits  map[string][]string  // lexer token -> finite set of texts (when finite)
-	ruleAlts map[string][]string  // rule -> labelled alt context names
+	tokMin   map[string]int      // lexer token -> minimal text length
+	tokLits  map[string][]string // lexer token -> finite set of texts (when finite)
+	ruleAlts map[string][]string // rule -> labelled alt context names
 	src      string
 }
 
